@@ -279,12 +279,12 @@ class RangeLiteral(Expression):
     def _make_range(self, start: Any, stop: Any) -> range:
         try:
             start = to_int(start)
-        except (ValueError, TypeError):
+        except (ValueError, TypeError, OverflowError):
             start = 0
 
         try:
             stop = to_int(stop)
-        except (ValueError, TypeError):
+        except (ValueError, TypeError, OverflowError):
             stop = 0
 
         # Descending ranges don't work
@@ -1629,7 +1629,12 @@ class LoopExpression(Expression):
         if isinstance(obj, Mapping):
             return iter(obj.items()), len(obj)
         if isinstance(obj, range):
-            return iter(obj), len(obj)
+            try:
+                return iter(obj), len(obj)
+            except OverflowError as err:
+                raise LiquidTypeError(
+                    f"range at '{self.iterable}' is too large", token=self.token
+                ) from err
         if isinstance(obj, Sequence):
             return iter(obj), len(obj)
 
@@ -1662,7 +1667,7 @@ class LoopExpression(Expression):
         if limit is not None:
             limit = max(limit, 0)
         if isinstance(offset, int):
-            offset = max(offset, 0)
+            offset = min(max(offset, 0), length)
 
         if limit is None and offset is None:
             context.stopindex(key=offset_key, index=length)
